@@ -953,6 +953,116 @@ def inline_helpers(mod: Module, func: ast.FunctionDef, depth: int = 2, only_priv
             return [pre, st]
         return [st]
 
+    def fuse_generator(st: ast.For) -> Optional[List[ast.stmt]]:
+        """`for T in _gen(args): BODY`  ->  the generator's body with every `yield v` statement replaced by `T = v; BODY` (generator fusion).
+        Only when the helper is a plain generator (yields as statements, no return value) and BODY has no break / continue of this loop / orelse."""
+        if not isinstance(st.iter, ast.Call) or st.orelse:
+            return None
+        res = _callee_of(mod, cls, st.iter, qual)
+        if res is None:
+            return None
+        d, skip = res[0], res[1]
+        recv = res[2] if len(res) > 2 else None
+        if d.name in exclude or d is func:
+            return None
+        own = list(walk_no_nested(d))
+        ys = [n for n in own if isinstance(n, (ast.Yield, ast.YieldFrom))]
+        if not ys or any(isinstance(n, ast.YieldFrom) for n in ys) or any(isinstance(n, ast.Return) and n.value is not None for n in own):
+            return None
+        ystmts = [n for n in own if isinstance(n, ast.Expr) and isinstance(n.value, ast.Yield)]
+        if len(ystmts) != len(ys):
+            return None          # a yield used as an expression (sent values)
+
+        def leaves_loop(body):
+            for b in body:
+                for n in ast.walk(b):
+                    if isinstance(n, (ast.Break, ast.Continue)):
+                        cur, inner = n, False
+                        # break / continue of a loop nested in BODY is fine
+                        for lp in [x for x in ast.walk(b) if isinstance(x, (ast.For, ast.While))]:
+                            if any(n is y for y in ast.walk(lp)):
+                                inner = True
+                        if not inner:
+                            return True
+            return False
+        if leaves_loop(st.body):
+            return None
+        a = d.args
+        if a.vararg or a.kwarg or a.posonlyargs or any(isinstance(x, ast.Starred) for x in st.iter.args) or any(k.arg is None for k in st.iter.keywords):
+            return None
+        params = [p.arg for p in a.args][skip:]
+        defaults = dict(zip([p.arg for p in a.args][len(a.args) - len(a.defaults):], a.defaults))
+        bound: Dict[str, ast.expr] = {}
+        if recv is not None and skip == 1:
+            bound[a.args[0].arg] = recv
+        for p_, v in zip(params, st.iter.args):
+            bound[p_] = v
+        for k in st.iter.keywords:
+            bound[k.arg] = k.value
+        for p_ in params:
+            if p_ not in bound:
+                if p_ not in defaults:
+                    return None
+                bound[p_] = defaults[p_]
+        _inl_counter[0] += 1
+        sfx = f"__gen{_inl_counter[0]}"
+        body = _copy.deepcopy(d.body)
+        if body and isinstance(body[0], ast.Expr) and isinstance(body[0].value, ast.Constant) and isinstance(body[0].value.value, str):
+            body = body[1:]
+        assigned = {t.id for b in body for t, v, s_ in assignments(b) if isinstance(t, ast.Name)}
+        for b in body:
+            for n in ast.walk(b):
+                if isinstance(n, (ast.For, ast.comprehension)):
+                    assigned |= {x.id for x in ast.walk(n.target) if isinstance(x, ast.Name)}
+        pre: List[ast.stmt] = []
+        subst: Dict[str, ast.expr] = {}
+        rename = {n: n + sfx for n in assigned}
+        for p_, v in bound.items():
+            if p_ in assigned or not isinstance(v, (ast.Name, ast.Attribute, ast.Constant)):
+                nm = p_ + sfx
+                pre.append(ast.copy_location(ast.Assign(targets=[ast.Name(id=nm, ctx=ast.Store())], value=_copy.deepcopy(v)), st))
+                rename[p_] = nm
+            else:
+                subst[p_] = v
+
+        class R(ast.NodeTransformer):
+            def visit_Name(self, n):
+                if n.id in rename:
+                    return ast.copy_location(ast.Name(id=rename[n.id], ctx=n.ctx), n)
+                if n.id in subst and isinstance(n.ctx, ast.Load):
+                    return ast.copy_location(_copy.deepcopy(subst[n.id]), n)
+                return n
+
+        def put(stmts_):
+            out_ = []
+            for b in stmts_:
+                if isinstance(b, ast.Expr) and isinstance(b.value, ast.Yield):
+                    val = b.value.value if b.value.value is not None else ast.Constant(value=None)
+                    out_.append(ast.copy_location(ast.Assign(targets=[_copy.deepcopy(st.target)], value=val), st))
+                    out_.extend(_copy.deepcopy(st.body))
+                    continue
+                for fld in ("body", "orelse", "finalbody"):
+                    sub = getattr(b, fld, None)
+                    if isinstance(sub, list) and sub and isinstance(sub[0], ast.stmt) and not isinstance(b, (ast.FunctionDef, ast.AsyncFunctionDef, ast.ClassDef)):
+                        setattr(b, fld, put(sub))
+                for h_ in getattr(b, "handlers", []) or []:
+                    h_.body = put(h_.body)
+                out_.append(b)
+            return out_
+        body = put([R().visit(b) for b in body])
+        for b in pre + body:
+            ast.fix_missing_locations(b)
+        seq = 0
+        for b in pre + body:
+            for n in ast.walk(b):
+                if hasattr(n, "lineno") and not hasattr(n, "_orig_lineno"):
+                    n._orig_lineno = n.lineno
+                    seq += 1
+                    n.lineno = st.lineno
+                    n.end_lineno = st.lineno
+                    n.col_offset = 1000 * (getattr(st, "col_offset", 0) // 1000 + 1) + seq
+        return pre + body
+
     def rewrite(stmts: List[ast.stmt], d: int) -> List[ast.stmt]:
         res: List[ast.stmt] = []
         hoisted: List[ast.stmt] = []
@@ -960,6 +1070,11 @@ def inline_helpers(mod: Module, func: ast.FunctionDef, depth: int = 2, only_priv
             hoisted.extend(hoist(st) if d > 0 else [st])
         for st in hoisted:
             new = None
+            if d > 0 and isinstance(st, ast.For):
+                new = fuse_generator(st)
+                if new is not None:
+                    res.extend(rewrite(new, d - 1))
+                    continue
             if d > 0:
                 if isinstance(st, ast.Expr) and isinstance(st.value, ast.Call):
                     new = expand(st.value, "expr", None)
@@ -980,6 +1095,12 @@ def inline_helpers(mod: Module, func: ast.FunctionDef, depth: int = 2, only_priv
         return res
 
     out.body = rewrite(out.body, depth)
+    # a closure whose every call was inlined is dead code now: drop its definition, so that rules do not read its body a second time
+    nested_defs = [st for st in out.body if isinstance(st, (ast.FunctionDef, ast.AsyncFunctionDef))]
+    if nested_defs:
+        refs = {n.id for st in out.body for n in ast.walk(st) if isinstance(n, ast.Name) and isinstance(n.ctx, ast.Load)}
+        orig_refs = {n.id for n in ast.walk(func) if isinstance(n, ast.Name) and isinstance(n.ctx, ast.Load)}
+        out.body = [st for st in out.body if not (isinstance(st, (ast.FunctionDef, ast.AsyncFunctionDef)) and st.name in orig_refs and st.name not in refs)] or out.body
     for n in ast.walk(out):
         for ch in ast.iter_child_nodes(n):
             mod.parent[id(ch)] = n
@@ -1094,7 +1215,7 @@ def with_private_callees(mod: Module, func: ast.AST, depth: int = 2) -> List[ast
             if not isinstance(c, ast.Call):
                 continue
             res = _callee_of(mod, cls, c, qual)
-            if res is not None and res[0].name.startswith("_") and not any(res[0] is x for x in out):
+            if res is not None and (res[0].name.startswith("_") or len(res) > 2) and not any(res[0] is x for x in out):
                 out.append(res[0])
                 todo.append((res[0], d + 1))
     return out
